@@ -5,4 +5,5 @@ CONSTANTS
   Stride = 1
   Pairs = 600
   Randoms = 600
-  NBombs = 6
+  NBombs = 18
+  RefStride = 1
